@@ -34,7 +34,7 @@ def strategy(tier):
     return sched.sched_specs(quiet=True, adaptive=False, force_last=False,
                              precisions=(None, None, None, 1), state_cond=True,
                              twin_ok=True, deep=tier == 'thorough',
-                             emit_steps=(1, 1, 1, 2, 2.5))
+                             emit_steps=(1, 1, 1, 2, 2.5), big_t0_ok=True)
 
 
 def close(a, b, exact):
